@@ -32,10 +32,21 @@ Record carrier_iface : Prop := {
   ci_to_i64 : forall z, small z -> n_to_int64 N (n_of_int N z) = z;
   ci_to_u64 : forall z, small z -> 0 <= z -> n_to_uint64 N (n_of_int N z) = z;
   ci_f32 : forall z, small z -> n_fits_f32 N (n_of_int N z) = true;
-  ci_mult : forall z g f, small26 z -> small26 g -> ok f -> (value f == inject_Z g)%Q ->
-              n_mult_of N (n_of_int N z) f = if g <=? 0 then MNotPositive else if Z.eqb (z mod g) 0 then MOk else MNotMultiple;
+  (* validate.MultipleOf on an integer and an integral factor: a factor <= 0 is reported, a divisor is accepted (the
+     quotient is exact) *)
+  ci_mult_div : forall z g f, jsmall z -> ok f -> (value f == inject_Z g)%Q ->
+                  (g <= 0 -> n_mult_of N (n_of_int N z) f = MNotPositive) /\
+                  (0 < g -> z mod g = 0 -> n_mult_of N (n_of_int N z) f = MOk);
 }.
 Hypothesis Y : carrier_iface.
+
+(* the divisibility test on small integers (validate.MultipleOf divides and asks swag whether the quotient is an integer,
+   within a relative tolerance of 1e-9: exact below 2^26). Kept apart: it is the one clause that is not proved of the
+   binary64 instance (Schema/NumericFlocq.v proves the others), and only the integral-factor case of multipleOf on an integer
+   carrier needs it. *)
+Definition mult_iface : Prop :=
+  forall z g f, small26 z -> small26 g -> ok f -> (value f == inject_Z g)%Q ->
+    n_mult_of N (n_of_int N z) f = if g <=? 0 then MNotPositive else if Z.eqb (z mod g) 0 then MOk else MNotMultiple.
 
 (* the order and equality hypotheses of the agreement theorems follow from exactness *)
 Lemma ord_total a b : ok a -> ok b -> n_lt N a b = negb (n_le N b a).
@@ -178,20 +189,28 @@ Qed.
 Definition tmult (q : simple) (k : ikind) (z : Z) : Prop :=
   match q_multiple_of q with
   | None => True
-  | Some f => ok f /\ ((ikind_signed k = true /\ n_exact_int N f = None) \/ (exists g, (value f == inject_Z g)%Q /\ small26 g /\ small26 z))
+  | Some f => ok f /\ ((ikind_signed k = true /\ n_exact_int N f = None) \/
+                       (exists g, (value f == inject_Z g)%Q /\ small g /\ jsmall z /\ (g <= 0 \/ z mod g = 0)) \/
+                       (mult_iface /\ exists g, (value f == inject_Z g)%Q /\ small26 g /\ small26 z))
   end.
 
 Lemma small26_small z : small26 z -> small z.
 Proof. unfold small26, small. intros [H1 H2]. split; [eapply Z.le_trans; [|exact H1] | eapply Z.le_trans; [exact H2|]]; [apply Z.opp_le_mono; rewrite !Z.opp_involutive|]; apply Z.pow_le_mono_r; lia. Qed.
 
 Lemma mult_int_carrier k z f : small z -> in_kind k z -> ok f ->
-  ((ikind_signed k = true /\ n_exact_int N f = None) \/ (exists g, (value f == inject_Z g)%Q /\ small26 g /\ small26 z)) ->
+  ((ikind_signed k = true /\ n_exact_int N f = None) \/
+   (exists g, (value f == inject_Z g)%Q /\ small g /\ jsmall z /\ (g <= 0 \/ z mod g = 0)) \/
+   (mult_iface /\ exists g, (value f == inject_Z g)%Q /\ small26 g /\ small26 z)) ->
   mult_native N (VInt k z) f = mult_native N (VFlt false (n_of_int N z)) f.
 Proof.
-  intros Hs Hk Hf [[Hsg Hn] | [g [Hv [Hg Hz]]]].
+  intros Hs Hk Hf [[Hsg Hn] | [[g [Hv [Hg [Hz Hd]]]] | [HM [g [Hv [Hg Hz]]]]]].
   - cbn [mult_native as_float64]. rewrite Hsg. unfold as_int64_exact. rewrite Hn. reflexivity.
+  - rewrite (mult_native_int_exact N value ok X k z f g Hs (in_kind_unsigned k z Hk) Hf Hv Hg).
+    cbn [mult_native as_float64]. destruct (ci_mult_div Y z g f Hz Hf Hv) as [C1 C2].
+    destruct (Z.leb_spec g 0) as [Hle|Hgt]; [rewrite (C1 Hle); reflexivity|].
+    destruct Hd as [Hd|Hd]; [lia|]. rewrite Hd, Z.eqb_refl, (C2 Hgt Hd). reflexivity.
   - rewrite (mult_native_int_exact N value ok X k z f g Hs (in_kind_unsigned k z Hk) Hf Hv (small26_small g Hg)).
-    cbn [mult_native as_float64]. rewrite (ci_mult Y z g f Hz Hg Hf Hv). reflexivity.
+    cbn [mult_native as_float64]. rewrite (HM z g f Hz Hg Hf Hv). reflexivity.
 Qed.
 
 (* ---- the enum group: members are JSON values ---- *)
